@@ -513,6 +513,9 @@ func sweepHookOpts(prop string, keep func(o *Obligation) bool, frames bool) prop
 				if explicit && strings.HasPrefix(o.Kind, "loop#") {
 					return true // invariants the postconditions above are proved with
 				}
+				if explicit && strings.HasPrefix(o.Kind, "call/") {
+					return true // call-site clauses of explicit contracts: what is handed to the callee (and to dependencies)
+				}
 				if strings.HasPrefix(o.Kind, "call/") && strings.HasSuffix(o.Kind, "/decreases") {
 					return true // termination: recursive calls go to smaller arguments
 				}
